@@ -185,6 +185,28 @@ pub fn gen_history(r: &mut Rng, c: &GenCfg, max_terms: usize, max_unions: usize)
     let mut terms: Vec<Tm> = vec![];
     let mut fam: Vec<&'static str> = vec![];
     let mut planned_unions: Vec<(usize, usize)> = vec![];
+    // unions that have to happen in this order (after the shuffled ones)
+    let mut ordered_unions: Vec<(usize, usize)> = vec![];
+    // congruence chain: wrappers u(a), u(b) merged by congruence when a = b, then the surviving wrapper class is merged into a
+    // class i that has more users, then i loses a slot - the handle of u(a) is two union-find hops away from the leader and is
+    // not touched in between (a stale-path scenario for old handles)
+    if r.chance(1, 6) && c.ops.contains(&"u") && c.ops.contains(&"app") && c.ops.contains(&"f") && c.ops.contains(&"k") && c.ops.contains(&"c") && c.max_names >= 3 {
+        let (x, y, z) = (0 as Name, 1 as Name, 2 as Name);
+        let a = Tm::leaf("f", vec![x, y]);
+        let b = Tm::leaf("k", vec![x, y]);
+        let wrap = |t: &Tm| Tm::node("u", vec![], vec![(vec![], t.clone())]);
+        let cst = || Tm::leaf("c", vec![]);
+        let i = Tm::node("app", vec![], vec![(vec![], Tm::leaf("f", vec![y, x])), (vec![], cst())]);
+        let i_user = wrap(&i);
+        let i_user2 = Tm::node("app", vec![], vec![(vec![], cst()), (vec![], i.clone())]);
+        let i2 = Tm::node("app", vec![], vec![(vec![], Tm::leaf("f", vec![z, x])), (vec![], cst())]);
+        let base = terms.len();
+        terms.extend([a.clone(), b.clone(), wrap(&a), wrap(&b), i, i_user, i_user2, i2]);
+        ordered_unions.push((base, base + 1));
+        ordered_unions.push((base + 3, base + 4));
+        ordered_unions.push((base + 4, base + 7));
+        fam.push("congruence-chain");
+    }
     while terms.len() < nterms {
         let roll = r.below(13);
         if roll < 5 || terms.is_empty() {
@@ -338,14 +360,26 @@ pub fn gen_history(r: &mut Rng, c: &GenCfg, max_terms: usize, max_unions: usize)
             added[i] = true;
         }
     }
-    for (a, b) in unions {
+    // the terms of an ordered chain are all inserted before its first union (the handles are then left alone)
+    if !ordered_unions.is_empty() {
+        let lo = ordered_unions.iter().map(|u| u.0.min(u.1)).min().unwrap();
+        for i in lo..(lo + 8).min(terms.len()) {
+            if !added[i] {
+                ops.push(HOp::Add(i));
+                added[i] = true;
+            }
+        }
+    }
+    let n_shuffled = unions.len();
+    unions.extend(ordered_unions.iter().copied());
+    for (ui, (a, b)) in unions.into_iter().enumerate() {
         for x in [a, b] {
             if !added[x] {
                 ops.push(HOp::Add(x));
                 added[x] = true;
             }
         }
-        let (a, b) = if r.chance(1, 2) { (a, b) } else { (b, a) };
+        let (a, b) = if ui >= n_shuffled || r.chance(1, 2) { (a, b) } else { (b, a) };
         ops.push(HOp::Union(a, b));
     }
     for i in 0..terms.len() {
